@@ -529,9 +529,15 @@ def build_case(rng, tok, fx, n_msgs: int, risky: str | None, cid: int, stats=Non
         if variant and variant["carrier"]:
             # the carrier's own body shape matters: a carrier without text/plain is where a reader that walks into the
             # carried message finds "the first text/plain part"
-            specs[at] = fresh(dict(allow, shapes=[variant["carrier"]], encrypted=False))
+            specs[at] = fresh(dict(allow, shapes=[variant["carrier"]], encrypted=False, containers=False))
         s = specs[at]
         s["risky"] = risky
+        if risky == "nested-rfc822" and s.get("container"):
+            # (the stdlib writes the parts of a multipart/signed without re-folding their headers: the carried message's bytes
+            #  would not be what the model computes for it - the nested cases keep the ordinary containers)
+            s["container"] = None
+            s["atts"] = [a for a in s["atts"] if not a.get("of_wrapper")]
+            s["features"] = sorted(f for f in s["features"] if not f.startswith("struct:container:"))
         if risky == "nested-rfc822":
             # 1..3 carried messages of different sizes: forwarded as attachment (with or without a file name) or inline
             sizes = rng.sample([0, 1, 3, 6, 10, 16, 24], len(variant["disp"]))
